@@ -19,6 +19,7 @@ from proxy.http.parser import HttpParser
 from proxy.http.server import HttpWebServerBasePlugin
 from proxy.common.utils import text_, bytes_
 from proxy.http.exception import HttpProtocolException
+from proxy.http.responses import NOT_FOUND_RESPONSE_PKT
 from proxy.common.constants import (
     COLON, HTTP_PROTO, HTTPS_PROTO, DEFAULT_HTTP_PORT, DEFAULT_HTTPS_PORT,
     DEFAULT_REVERSE_PROXY_ACCESS_LOG_FORMAT,
@@ -73,6 +74,7 @@ class ReverseProxy(TcpUpstreamConnectionHandler, HttpWebServerBasePlugin):
             request = r
 
         needs_upstream = False
+        matched = False
 
         # routes
         for plugin in self.plugins:
@@ -81,6 +83,7 @@ class ReverseProxy(TcpUpstreamConnectionHandler, HttpWebServerBasePlugin):
                 if isinstance(route, tuple):
                     pattern = re.compile(route[0])
                     if pattern.match(text_(request.path)):
+                        matched = True
                         self.choice = Url.from_bytes(
                             random.choice(route[1]),
                         )
@@ -90,6 +93,7 @@ class ReverseProxy(TcpUpstreamConnectionHandler, HttpWebServerBasePlugin):
                 elif isinstance(route, str):
                     pattern = re.compile(route)
                     if pattern.match(text_(request.path)):
+                        matched = True
                         choice = plugin.handle_route(request, pattern)
                         if isinstance(choice, Url):
                             self.choice = choice
@@ -106,6 +110,13 @@ class ReverseProxy(TcpUpstreamConnectionHandler, HttpWebServerBasePlugin):
                         break
                 else:
                     raise ValueError('Invalid route')
+
+        if not matched:
+            # A follow-up request on a kept-alive connection which
+            # matches no route, answer like the web server does for
+            # the first request of a connection: 404 and close.
+            self.client.queue(NOT_FOUND_RESPONSE_PKT)
+            raise HttpProtocolException('No reverse proxy route matched')
 
         if needs_upstream:
             assert self.choice and self.choice.hostname
